@@ -537,6 +537,18 @@ func (c *Ctx) region(fn *ssa.Function) []*ssa.Function {
 					visit(p.unbound(g), d+1)
 				}
 			}
+			// a named function started with go (or deferred) belongs to the activity just like a
+			// function literal started that way
+			switch x := in.(type) {
+			case *ssa.Go:
+				if g := p.unbound(staticCallee(x)); g != nil {
+					visit(g, d+1)
+				}
+			case *ssa.Defer:
+				if g := p.unbound(staticCallee(x)); g != nil {
+					visit(g, d+1)
+				}
+			}
 		})
 	}
 	visit(fn, 0)
